@@ -21,8 +21,13 @@ TECHNIQUE = ("def-use (upward-exposed) analysis of module globals per sub-block 
 LEVEL_TEXT = ("Decides the sentence 'the recorded original instruction list is the instruction sequence of the sub-block "
               "the specification was derived from' as a def-use fact (the global it is read from is always re-bound in "
               "the same sub-block translation, from that sub-block's opcodes), and that every input of the bound "
-              "arithmetic is fresh per sub-block. Feasibility of init_progr_len / max_sk_sz and validity of min_length "
-              "are existential/universal statements over instruction sequences and are not decided.")
+              "arithmetic is fresh per sub-block. Of the bound arithmetic it decides necessary pieces only: folding discounts "
+              "are counted once per expression and at the instruction's position (C16.c/d), the memory rules discount at most "
+              "one instruction per store they remove (C16.i, by evaluation on the access-sequence family), the stack bound is "
+              "read from the full variable list (C16.j), every store is counted once in min_length (C16.e/h), a revisited "
+              "instruction is charged only when duplicated (C16.g). Feasibility of init_progr_len / max_sk_sz and validity of "
+              "min_length in general are existential/universal statements over instruction sequences and are not decided "
+              "(one witnessed over-discount that no sound rule reports: witness/C16-shared-inner-term-discount).")
 EXPLANATION = ("For each function that calls generate_json (the only writer of original_instrs) the upward-exposed set "
                "must not contain original_ins unless every caller defines it first (unsplit case); the defining "
                "right-hand side is chased through local single assignments to the parameter holding the sub-block's "
